@@ -94,7 +94,10 @@ class C01(Cfg):
                   "- all FIXED in /repo since (c887d69, cfb7678, 456214b, f1df104; replays kept as regression cases) - and, still open: the right of a reference deletion judged "
                   "on the reference's author (#3b), incoming references removed with a deleted row; the guarded statement is proved for any switch values. Mutation trees of ANY depth (structural recursion on the tree: "
                   "flatten; rooms inherited from the nearest ancestor naming one; C01_rows / C01_references / C01_partial for every tree; the guard of C01_partial is 'no changed row below an unchanged one'); "
-                  "C01_partial_delete_node gives the exact footprint of a node deletion for any switch values. Room mutations: the caller of an accepted room mutation is admin in the resulting room or only "
+                  "C01_partial_delete_node gives the exact footprint of a node deletion for any switch values. A room mutation names only groups of the mutated room: a sys.Authorisation id that is "
+                  "not one of its groups (the group of another room, a data row, an admin entry) is refused (C01_room_mutation_foreign_group, C01_room_mutation_groups_belong) and an accepted mutation of one "
+                  "room leaves the stored and in-memory definition of every other room as it is (C01_room_mutation_other_rooms); the run makes admins of one room name groups of other rooms and "
+                  "arbitrary row ids, observes the STORED definition of every room (rstored) and flags any change that no accepted mutation of that room explains (foreign-room-definition-changed). Room mutations: the caller of an accepted room mutation is admin in the resulting room or only "
                   "adds users to groups it administers; the run's oracle judges every accepted room update on the definition BEFORE it (admins, rights, user admins, new groups "
                   "need a room admin at the op's date; a group's users a room admin or that group's user admin) and the generator makes user admins that are not room admins try each of these. The model is tied to /repo by running both on generated operation sequences and comparing verdict and the full "
                   "content of _node, _edge and both deletion logs after every operation.")
